@@ -26,7 +26,8 @@ impl Instruction {
                     &arg.replace('\\', "\\\\")
                         .replace('"', "\\\"")
                         .replace('\n', "\\n")
-                        .replace('\r', "\\r"),
+                        .replace('\r', "\\r")
+                        .replace('\0', "\\0"),
                 );
                 args.push('\"');
             }
